@@ -37,8 +37,14 @@ def _builtin_exists(module, name):
     import _compat_pickle
     import builtins
 
-    first = name.split(".")[0]
-    return hasattr(builtins, first) or (module, name) in _compat_pickle.NAME_MAPPING
+    if (module, name) in _compat_pickle.NAME_MAPPING:
+        return True
+    obj = builtins
+    for part in name.split("."):  # protocol 4 walks the dotted path: every component has to exist
+        if not hasattr(obj, part):
+            return False
+        obj = getattr(obj, part)
+    return True
 
 
 class Stub:
